@@ -283,6 +283,238 @@ def rule_f(model, rep):
         rep.undecided(R, "<instance-count>", f"only {n} raises of passlib.exc factories found, expected at least 40")
 
 
+def rule_g(model, rep):
+    """lenient library decoders: base64.b64decode() without validate=True *discards* characters outside the alphabet, so a stored hash whose
+    salt or digest field was altered with junk characters still decodes to the same bytes and verifies; hashlib.pbkdf2_hmac() raises
+    OverflowError (not ValueError) for an iteration count beyond a C int"""
+    R = "C08.g-lenient-decoders"
+    n = 0
+    for un, unit in model.units.items():
+        if not un.startswith("passlib.handlers"):
+            continue
+        for q, fn in unit.functions():
+            regex_fed = any(isinstance(c, ast.Call) and isinstance(c.func, ast.Attribute) and c.func.attr in ("match", "fullmatch") and "regex" in ast.unparse(c.func.value) for c in walk_no_nested(fn))
+            for c in walk_no_nested(fn):
+                if isinstance(c, ast.Call) and ast.unparse(c.func) in ("b64decode", "base64.b64decode"):
+                    n += 1
+                    strict = any(k.arg == "validate" and ast.unparse(k.value) == "True" for k in c.keywords)
+                    if strict or regex_fed:
+                        rep.hold(R, site(un, q), f"{ast.unparse(c)[:60]}: " + ("validate=True" if strict else "input restricted to the alphabet by the regex this parser matches"))
+                    else:
+                        rep.violation(R, site(un, q), f"{ast.unparse(c)}  # no validate=True and no regex in front",
+                                      "base64.b64decode() skips characters outside the alphabet unless validate=True; nothing restricts the field before it is decoded",
+                                      witness="'{PKCS5S2}$$$<base64>' (or junk inside a cta_pbkdf2_sha1 salt field) decodes to the same bytes: the altered hash string verifies the original password")
+    if n < 4:
+        rep.undecided(R, "<instance-count>", f"only {n} base64.b64decode calls found in the handlers, expected at least 4")
+    D = "passlib.crypto.digest"
+    fn = model.func(D, "pbkdf2_hmac")
+    call = [c for c in walk_no_nested(fn) if isinstance(c, ast.Call) and ast.unparse(c.func) == "hashlib.pbkdf2_hmac"]
+    unit = model.unit(D)
+    mapped = False
+    for c in call:
+        t = unit.enclosing(c, ast.Try)
+        while t is not None:
+            if any(h.type is not None and "OverflowError" in ast.unparse(h.type) and any(isinstance(x, ast.Raise) and "ValueError" in ast.unparse(x) for x in h.body) for h in t.handlers):
+                mapped = True
+            t = unit.enclosing(t, ast.Try)
+    bounded = any(isinstance(n_, ast.If) and "rounds" in ast.unparse(n_.test) and n_.body and isinstance(n_.body[-1], ast.Raise) and "ValueError" in ast.unparse(n_.body[-1]) and (">" in ast.unparse(n_.test)) for n_ in walk_no_nested(fn))
+    rep.check(bool(call) and (mapped or bounded), R, f"{D}:pbkdf2_hmac rounds", "hashlib.pbkdf2_hmac(..., rounds, ...)  # OverflowError for rounds >= 2**31 is not translated",
+              "an iteration count the C library cannot take is reported as ValueError (the handlers declare max_rounds = 0xFFFFFFFF, so the parser lets it through)",
+              witness="pbkdf2_sha256.verify(pw, '$pbkdf2-sha256$2147483648$<salt>$<chk>') raises OverflowError('iteration value is too great')")
+    # scram: an empty algorithm name in the digest list
+    S = "passlib.handlers.scram"
+    fs = model.func(S, "scram.from_string")
+    guard = any(isinstance(n_, ast.If) and ast.unparse(n_.test) in ("not alg", "not alg.strip()", "not alg or not digest") and n_.body and isinstance(n_.body[-1], ast.Raise) for n_ in walk_no_nested(fs))
+    rep.check(guard, R, f"{S}:scram.from_string empty algorithm", "alg, digest = pair.split('=')  # alg may be empty",
+              "an empty algorithm name in the digest list is refused as malformed (lookup_hash() asserts a non-empty name)",
+              witness="scram.verify(pw, '<valid scram hash>,=AAAA') raises AssertionError; under python -O it parses and verifies")
+
+
+def _unicode_digit_groups(pattern, flags):
+    """does a *str* regex use \\d (Unicode decimal digits) anywhere"""
+    import re._parser as sp
+    if isinstance(pattern, bytes):
+        return False
+    found = []
+
+    def walk(seq):
+        for op, av in seq:
+            o = str(op)
+            if o == "IN":
+                for k, v in av:
+                    if str(k) == "CATEGORY" and "DIGIT" in str(v) and "NOT" not in str(v):
+                        found.append(str(v))
+            elif o == "CATEGORY" and "DIGIT" in str(av) and "NOT" not in str(av):
+                found.append(str(av))
+            elif o in ("MAX_REPEAT", "MIN_REPEAT", "POSSESSIVE_REPEAT"):
+                walk(av[2])
+            elif o == "SUBPATTERN":
+                walk(av[3])
+            elif o == "BRANCH":
+                for br in av[1]:
+                    walk(br)
+    walk(sp.parse(pattern, flags))
+    return bool(found) and not (flags & 256)  # re.ASCII
+
+
+def _digits_only_helper(model, unit, call):
+    """callee of `call` returns all(c in <const ascii digits> for c in <arg>)"""
+    import string
+    f = call.func
+    name = f.id if isinstance(f, ast.Name) else f.attr if isinstance(f, ast.Attribute) else None
+    if name is None:
+        return False
+    for un in (unit.name, "passlib.utils.handlers"):
+        fn = model.func(un, name, required=False) if un in model.units else None
+        if fn is None:
+            continue
+        consts = [c.value for c in ast.walk(fn) if isinstance(c, ast.Constant) and isinstance(c.value, str) and c is not getattr(fn.body[0], "value", None)]
+        alls = [c for c in ast.walk(fn) if isinstance(c, ast.Call) and isinstance(c.func, ast.Name) and c.func.id == "all" and c.args and isinstance(c.args[0], ast.GeneratorExp)
+                and isinstance(c.args[0].elt, ast.Compare) and isinstance(c.args[0].elt.ops[0], ast.In)]
+        return bool(alls) and bool(consts) and all(set(c) <= set(string.hexdigits) for c in consts)
+    return False
+
+
+def rule_h(model, rep):
+    """a number in a hash string has one spelling; int() also accepts '+1000', ' 1000', '1_000' and non-ASCII digits, so a parser that
+    only calls int() (even after a zero-padding test) lets an altered string through unless the text is restricted to ASCII digits first
+    (explicit test, [0-9] regex group, bytes regex) or compared with the re-rendered number"""
+    from rules.c07 import _regex_uses
+    from pv.identify import fold_regex
+    R = "C08.h-canonical-numbers"
+    PARSERS = ("from_string", "parse_mc3", "parse_int", "_parse_scrypt_string", "_parse_7_string")
+    n = 0
+    for un, unit in model.units.items():
+        if not un.startswith(("passlib.handlers", "passlib.utils.handlers", "libpass.inspect", "libpass.hashers")):
+            continue
+        for q, fn in unit.functions():
+            if q.split(".")[-1] not in PARSERS and not un.startswith("libpass.inspect"):
+                continue
+            tparams = {a.arg for a in fn.args.args if a.annotation is not None and ast.unparse(a.annotation) in ("type", "type[Any]")}
+            # int(<text>), or a conversion through a type object taken from a definition (`param.type(text)`, `type_(text)`): int is among the types
+            ints = [c for c in walk_no_nested(fn) if isinstance(c, ast.Call) and c.args and not isinstance(c.args[0], ast.Constant) and (
+                (isinstance(c.func, ast.Name) and (c.func.id == "int" or c.func.id in tparams)) or (isinstance(c.func, ast.Attribute) and c.func.attr == "type"))]
+            if not ints:
+                continue
+            txt = ast.unparse(fn)
+            nodes = list(walk_no_nested(fn))
+            # regexes the function matches with: str patterns using \\d admit non-ASCII digits
+            cref = (un, q.rsplit(".", 1)[0]) if "." in q else None
+            rx_bad, rx_seen = [], 0
+            for attr, how in _regex_uses(fn):
+                cands = []
+                if cref:
+                    owner, node = model.lookup(cref, attr)
+                    if node is not None:
+                        cands.append((model.unit(owner[0]), node, cref))
+                else:   # module-level parser taking the info class as a parameter: every class of the unit defining ATTR
+                    for cd in [c for c in unit.tree.body if isinstance(c, ast.ClassDef)]:
+                        for st in cd.body:
+                            if isinstance(st, ast.Assign) and any(isinstance(t, ast.Name) and t.id == attr for t in st.targets):
+                                cands.append((unit, st.value, (un, cd.name)))
+                if not cands and attr in unit.assigns:
+                    cands.append((unit, unit.assigns[attr][0], None))
+                for ru, node, cr in cands:
+                    if not (isinstance(node, ast.Call) and node.args):
+                        continue
+                    pat = model.fold(ru, node.args[0], cls=cr)
+                    if pat is UNKNOWN:
+                        continue
+                    rx_seen += 1
+                    if isinstance(pat, str):
+                        try:
+                            _, flags = fold_regex(model, ru, node, cls=cr)
+                        except Exception:
+                            flags = 0
+                        if _unicode_digit_groups(pat, flags):
+                            rx_bad.append(f"{cr[1] + '.' if cr else ''}{attr}")
+            from_group = {t.id for a in nodes if isinstance(a, ast.Assign) and (".group(" in ast.unparse(a.value) or ".groupdict(" in ast.unparse(a.value)) for tt in a.targets for t in ast.walk(tt) if isinstance(t, ast.Name)}
+            for c in ints:
+                arg = ast.unparse(c.args[0])
+                base = arg.split("[")[0].split(".")[0]
+                rerender = any(isinstance(x, ast.Compare) and len(x.ops) == 1 and isinstance(x.ops[0], ast.NotEq) and base in ast.unparse(x.left) and
+                               ("str(" in ast.unparse(x.comparators[0]) or "%" in ast.unparse(x.comparators[0])) for x in nodes)
+                explicit = f"{arg}.isascii()" in txt and f"{arg}.isdigit()" in txt
+                helper = any(isinstance(x, ast.Call) and x.args and ast.unparse(x.args[0]) == arg and x is not c and _digits_only_helper(model, unit, x) for x in nodes)
+                via_regex = (".group(" in arg or base in from_group) and rx_seen and not rx_bad
+                n += 1
+                s = site(un, q) + f" int({arg})"
+                if rerender or explicit or helper or via_regex:
+                    rep.hold(R, s, "text restricted to ASCII digits (explicit test / digits-only helper / [0-9] or bytes regex group) or compared with the re-rendered number")
+                else:
+                    why = f"regex {rx_bad} uses \\d on text, which also matches non-ASCII decimal digits" if rx_bad and (".group(" in arg or base in from_group) else \
+                        "the numeric field is converted with a bare int(); nothing ties the text to the canonical decimal spelling"
+                    rep.violation(R, s, f"int({arg})  # accepts '+1000', ' 1000', '1_000', full-width / Arabic-Indic digits", why,
+                                  witness="sha256_crypt.verify(pw, '$5$rounds=+1000$...') / 'rounds=1_000' / 'rounds= 1000' verify like the original: an altered hash string is accepted")
+    if n < 12:
+        rep.undecided(R, "<instance-count>", f"only {n} int() conversions found in parsers, expected at least 12")
+
+
+def rule_i(model, rep):
+    """`$` also matches before a trailing newline: a parser that anchors its regex with `$` and calls .match() accepts <hash> + '\\n'
+    (an insertion at the last position) and verifies it like the original; \\Z or fullmatch() close the end"""
+    import re._parser as sp
+    from rules.c07 import _regex_uses
+    from pv.identify import fold_regex
+    R = "C08.i-end-anchor"
+    n = 0
+    for un, unit in model.units.items():
+        if not un.startswith(("passlib.handlers", "passlib.utils.handlers", "libpass.inspect", "libpass.hashers")):
+            continue
+        for q, fn in unit.functions():
+            cref = (un, q.rsplit(".", 1)[0]) if "." in q else None
+            negative = {ast.unparse(c.left.func.value).split(".")[-1] for c in walk_no_nested(fn) if isinstance(c, ast.Compare) and isinstance(c.left, ast.Call)
+                        and isinstance(c.left.func, ast.Attribute) and isinstance(c.ops[0], ast.Is) and ast.unparse(c.comparators[0]) == "None"}
+            alias = {t.id: a.value.attr for a in walk_no_nested(fn) if isinstance(a, ast.Assign) and isinstance(a.value, ast.Attribute) and isinstance(a.value.value, ast.Name)
+                     and a.value.value.id in ("cls", "self") for t in a.targets if isinstance(t, ast.Name)}
+            for attr, how in _regex_uses(fn):
+                attr = alias.get(attr, attr)
+                if attr in negative:
+                    continue    # `pat.match(x) is None` accepts on a mismatch: a laxer end makes the test stricter, not looser
+                cands = []
+                if cref:
+                    try:
+                        owner, node = model.lookup(cref, attr)
+                    except Exception:
+                        node = None
+                    if isinstance(node, ast.Call):
+                        cands.append((model.unit(owner[0]), node, cref))
+                    else:   # helper base class: the attribute is declared by each subclass
+                        for sub in model.subclasses(cref):
+                            o2, n2 = model.lookup(sub, attr)
+                            if isinstance(n2, ast.Call) and (model.unit(o2[0]), n2, tuple(o2)) not in cands:
+                                cands.append((model.unit(o2[0]), n2, tuple(o2)))
+                else:
+                    for cd in [c for c in unit.tree.body if isinstance(c, ast.ClassDef)]:
+                        for st in cd.body:
+                            if isinstance(st, ast.Assign) and any(isinstance(t, ast.Name) and t.id == attr for t in st.targets):
+                                cands.append((unit, st.value, (un, cd.name)))
+                if not cands and attr in unit.assigns:
+                    cands.append((unit, unit.assigns[attr][0], None))
+                for ru, node, cr in cands:
+                    try:
+                        pat, flags = fold_regex(model, ru, node, cls=cr)
+                    except Exception:
+                        continue
+                    parsed = sp.parse(pat, flags)
+                    last = parsed[-1] if len(parsed) else None
+                    end = str(last[1]) if last is not None and str(last[0]) == "AT" else None
+                    s = site(un, q) + f" {cr[1] + '.' if cr else ''}{attr}.{how}"
+                    if end is None:
+                        continue     # prefix tests (identify by ident): nothing claims to reach the end of the string
+                    n += 1
+                    multiline = bool(flags & 8)
+                    if how == "fullmatch" or (end == "AT_END_STRING"):
+                        rep.hold(R, s, "end of the regex is the end of the string (\\Z / fullmatch)")
+                    elif end == "AT_END" and not multiline:
+                        rep.violation(R, s, f"{attr}: ...$  with .{how}()", "`$` matches before a trailing newline, so <hash> + '\\n' parses like <hash>",
+                                      witness="fshp.verify(pw, h + '\\n') / ldap_salted_sha1 / bsdi_crypt / bigcrypt / crypt16 / oracle11 / bcrypt_sha256: an altered stored string (one character appended) verifies the original password")
+                    else:
+                        rep.undecided(R, s, f"end anchor {end} with flags {flags}")
+    if n < 25:
+        rep.undecided(R, "<instance-count>", f"only {n} end-anchored regex uses found, expected at least 25")
+
+
 def rule_d(model, rep):
     R = "C08.d-whole-digest"
     # settings parsed from a *full* hash are validated strictly; only config strings (no digest) may be clipped / truncated
@@ -357,6 +589,9 @@ def run(model, rep):
     rule_c(model, rep)
     rule_d(model, rep)
     rule_f(model, rep)
+    rule_g(model, rep)
+    rule_h(model, rep)
+    rule_i(model, rep)
     from . import shared
     shared.falsy_zero_lint(model, rep, "C08.e-zero-is-a-value", lambda un: un.startswith(("passlib.handlers", "passlib.utils.handlers")),
                            lambda un, q: q.split(".")[-1] in ("__init__", "from_string", "parse") or q.split(".")[-1].startswith(("_parse", "_norm")),
